@@ -14,6 +14,8 @@ import (
 	"strings"
 	"sync"
 	"time"
+
+	"verif/harness/internal/rng"
 )
 
 // ---------- files exchanged between parent and workers ----------
@@ -79,8 +81,15 @@ func SeedFromEnv() uint64 {
 }
 
 // runCase executes one case under recover().
+// OnCaseStart, when set, is called before every case with a value derived from the case's identity
+// (monitors use it to vary what does not belong to the case's own PRNG stream, e.g. query order).
+var OnCaseStart func(seed uint64)
+
 func runCase(p *Prop, seed uint64, index int, tier string, traceOn bool) *Ctx {
 	c := newCtx(p.ID, seed, index, tier, traceOn)
+	if OnCaseStart != nil {
+		OnCaseStart(rng.Hash(seed, rng.HashString(p.ID), uint64(index), 0x0b5e))
+	}
 	c.Guard("case", func() { p.Run(c) })
 	return c
 }
